@@ -10,5 +10,7 @@ import Rtsp.Props.C20
 #print axioms Rtsp.Url.play_roundtrip
 #print axioms Rtsp.Url.record_media_lookup
 #print axioms Rtsp.Url.no_credentials_on_wire
+#print axioms Rtsp.Url.playFlow_fidelity
+#print axioms Rtsp.Url.recordFlow_fidelity
 #print axioms Rtsp.Url.ex1_inScope
 #print axioms Rtsp.Url.ex2_inScope
